@@ -492,13 +492,16 @@ func (f *frame) runLoop(h *ssa.BasicBlock, body map[int]bool, entry *State) {
 				if c == nil || (isConst(c) && !c.c) {
 					continue
 				}
+				if s != h && body[s.Index] {
+					continue // edge inside the iteration
+				}
 				w := band(f.chain(blk, h), c)
 				if !isConst(w) {
 					nonconst = true
 				}
 				if s == h {
 					back = append(back, blk)
-				} else if !body[s.Index] {
+				} else {
 					nexit++
 				}
 			}
@@ -508,7 +511,21 @@ func (f *frame) runLoop(h *ssa.BasicBlock, body map[int]bool, entry *State) {
 		}
 		if nonconst || len(back)+nexit != 1 {
 			in.curPos = firstPos(h)
-			in.fail("loop at block %d of %s is not constant-unrollable (iteration %d)", h.Index, f.fn, iter)
+			dbg := ""
+			for i := range body {
+				if !f.live[i] {
+					continue
+				}
+				blk := f.fn.Blocks[i]
+				for _, s := range blk.Succs {
+					c := f.bc[edgeKey{i, s.Index}]
+					if c == nil || (isConst(c) && !c.c) {
+						continue
+					}
+					dbg += fmt.Sprintf(" %d->%d:%s/chain=%s", i, s.Index, c, f.chain(blk, h))
+				}
+			}
+			in.fail("loop at block %d of %s is not constant-unrollable (iteration %d; back=%d exits=%d%s)", h.Index, f.fn, iter, len(back), nexit, dbg)
 			return
 		}
 		if nexit == 1 {
